@@ -30,6 +30,7 @@ func main() {
 	verbose := fs.Bool("v", false, "verbose")
 	oblFilter := fs.String("obl", "", "obligation name filter (dump)")
 	noReplay := fs.Bool("noreplay", false, "skip counterexample replay")
+	evOut := fs.String("evidence", "", "evidence file (default <verif>/evidence/<id>.json)")
 	var pos []string
 	args := os.Args[2:]
 	for len(args) > 0 && !strings.HasPrefix(args[0], "-") {
@@ -44,7 +45,7 @@ func main() {
 		if len(pos) != 1 {
 			usage()
 		}
-		os.Exit(runCheck(pos[0], *tier, *repo, *verif, *verbose, *noReplay))
+		os.Exit(runCheck(pos[0], *tier, *repo, *verif, *verbose, *noReplay, *evOut))
 	case "dump":
 		if len(pos) != 1 {
 			usage()
